@@ -1092,6 +1092,17 @@ class Lib:
             return m(ctx, args, kwargs)
         raise OutOfSubset("isinstance")
 
+    def bi_getattr(self, ctx, args, kwargs):
+        if len(args) == 2 and isinstance(args[1], str) and not kwargs:
+            return self.getattr(ctx, args[0], args[1])
+        raise OutOfSubset("getattr with a symbolic name or a default")
+
+    def bi_setattr(self, ctx, args, kwargs):
+        if len(args) == 3 and isinstance(args[1], str) and not kwargs:
+            self.setattr(ctx, args[0], args[1], args[2])
+            return None
+        raise OutOfSubset("setattr with a symbolic name")
+
     def bi_hasattr(self, ctx, args, kwargs):
         v, name = args
         if name == '__iter__':
@@ -1250,6 +1261,19 @@ class Lib:
         m = self.I.models.get('set.isdisjoint')
         if m:
             return m(ctx, recv, other)
+        if self.is_setlike(recv) and self.is_setlike(other) and not isinstance(recv, SymSet) and not isinstance(other, SymSet):
+            # finitely many (conditional) items on one side: disjoint iff none of them is a member of the other side
+            a, b = (recv, other) if not isinstance(recv, (set, frozenset)) else (other, recv)
+            ca = to_condset(a)
+            parts = []
+            for it, c in zip(ca.items, ca.conds):
+                mb = cs_member(it, b)
+                if c is False or mb is False:
+                    continue
+                if c is True and mb is True:
+                    return False
+                parts.append(z3.Not(z3.And(zbool(c), zbool(mb))))
+            return True if not parts else Sym(z3.And(*parts))
         raise OutOfSubset("isdisjoint on symbolic sets")
 
     def meth_index(self, ctx, recv, args, kwargs, f):
